@@ -403,6 +403,49 @@ fn subs_for<B: Backend>(out: &mut Vec<SubCheck>) {
     });
 }
 
+/// typed keys in edge-case byte encodings (non-canonical Ed25519 y, x = 0 with the sign bit, small
+/// order; every SEC1 tag byte for P-384): whatever a typed key parser accepts prints as the string
+/// it was given, and no two accepted strings print alike
+fn edge_key_texts(acc: &mut Acc) {
+    use crate::refmodel::Ver;
+    let types = texttypes::all_types();
+    let mut candidates: Vec<(Ver, String, String)> = Vec::new(); // (version, shape, body bytes as text)
+    for (shape, bytes) in crate::props::c08::ed25519_edge_encodings() {
+        for ver in [Ver::V2, Ver::V4] {
+            candidates.push((ver, shape.clone(), format!("{}.public.{}", ver.k(), crate::util::b64_encode(&bytes))));
+        }
+    }
+    let ks = crate::backends::KeySeed::from_u64(acc.seed ^ 0xc09e);
+    let pk3 = crate::backends::public_bytes(Ver::V3, &crate::backends::secret_bytes(Ver::V3, &ks));
+    for tag in 0u8..=8 {
+        let mut b = pk3.clone();
+        b[0] = tag;
+        candidates.push((Ver::V3, format!("sec1-tag-{tag:02x}"), format!("k3.public.{}", crate::util::b64_encode(&b))));
+    }
+    for t in types.iter().filter(|t| t.kind == "key.public" || t.kind == "key.pke-public") {
+        let mut printed: std::collections::BTreeMap<String, String> = std::collections::BTreeMap::new();
+        for (ver, shape, text) in candidates.iter().filter(|c| c.0 == t.ver) {
+            let _ = ver;
+            acc.eval();
+            let Ok(p) = (t.parse)(text) else {
+                acc.class("edge-key-text:rejected");
+                continue;
+            };
+            acc.class("edge-key-text:accepted");
+            acc.nt(hash_of(&(t.backend, t.kind, text)));
+            let case = json!({"backend": t.backend, "kind": t.kind, "shape": shape, "text": text});
+            if &p.text != text {
+                acc.fail(Fail::new(format!("C09/{}/{}/edge-encoding/accepts-non-canonical", t.backend, t.kind), format!("{text} ({shape}) is accepted and prints as {}", p.text)), case.clone());
+            }
+            if let Some(prev) = printed.insert(p.text.clone(), text.clone()) {
+                if &prev != text {
+                    acc.fail(Fail::new(format!("C09/{}/{}/edge-encoding/two-strings-one-value", t.backend, t.kind), format!("{prev} and {text} are both accepted and print as {}", p.text)), case);
+                }
+            }
+        }
+    }
+}
+
 pub fn def() -> PropertyDef {
     let mut subs = Vec::new();
     for which in 0..3usize {
@@ -420,11 +463,19 @@ pub fn def() -> PropertyDef {
         b64_encode_all(acc);
         Ok(())
     }));
+    subs.push(SubCheck::custom("c09.edge-key-texts", 1, edge_key_texts, |_v: &Value, acc: &mut Acc| {
+        let before = acc.violations.len();
+        edge_key_texts(acc);
+        match acc.violations.get(before) {
+            Some(v) => Err(Fail::new(v.sig.clone(), v.what.clone())),
+            None => Ok(()),
+        }
+    }));
     crate::for_backends!(B => subs_for::<B>(&mut subs));
     PropertyDef {
         id: "C09",
         level: "exploration",
-        rule: "(1) exhaustive: every ASCII string of length <= 3 and every length-4 string over the 64-symbol alphabet plus 10 (quick) / 16 (thorough) hostile symbols ('=', '+', '/', '.', whitespace, multi-byte UTF-8, neighbours of the alphabet ranges), as the final base64 block after 0, 1 and 2 full blocks, decoded through KeyText: accept iff the strict reference decoder accepts (unpadded URL-safe alphabet, length != 1 mod 4, canonical trailing bits), same bytes, re-encodes to the input; (2) every byte-sequence length 0..=1200 (thorough 9000) and the lengths around every multiple of 1024 up to 128 KiB encode to the reference text and decode back; (3) proptest over every FromStr/Display/serde triple of paseto-core at every back end (tokens, key texts, typed keys, ids, PIE, PBKW, sealed keys): canonical strings with 0-3 edits (substitute / insert / delete / append suffix / duplicate segment / swap header / truncate over alphabet, padding, standard-alphabet, whitespace, multi-byte characters) and arbitrary strings: accept iff the strict grammar accepts (exact header, canonical segments, no extra segment; ids exactly 33 bytes), accepted strings re-serialise identically (tokens modulo one trailing '.'), serde serialises to exactly the Display string and deserialises exactly the strings FromStr accepts. Non-trivial iff accepted, or one edit away from a canonical string",
+        rule: "(1) exhaustive: every ASCII string of length <= 3 and every length-4 string over the 64-symbol alphabet plus 10 (quick) / 16 (thorough) hostile symbols ('=', '+', '/', '.', whitespace, multi-byte UTF-8, neighbours of the alphabet ranges), as the final base64 block after 0, 1 and 2 full blocks, decoded through KeyText: accept iff the strict reference decoder accepts (unpadded URL-safe alphabet, length != 1 mod 4, canonical trailing bits), same bytes, re-encodes to the input; (2) every byte-sequence length 0..=1200 (thorough 9000) and the lengths around every multiple of 1024 up to 128 KiB encode to the reference text and decode back; (3) proptest over every FromStr/Display/serde triple of paseto-core at every back end (tokens, key texts, typed keys, ids, PIE, PBKW, sealed keys): canonical strings with 0-3 edits (substitute / insert / delete / append suffix / duplicate segment / swap header / truncate over alphabet, padding, standard-alphabet, whitespace, multi-byte characters) and arbitrary strings: accept iff the strict grammar accepts (exact header, canonical segments, no extra segment; ids exactly 33 bytes), accepted strings re-serialise identically (tokens modulo one trailing '.'), serde serialises to exactly the Display string and deserialises exactly the strings FromStr accepts; (4) typed public keys in edge-case byte encodings (non-canonical Ed25519 y, sign-bit variants, small order, every SEC1 tag): accepted strings print as given and no two of them alike. Non-trivial iff accepted, or one edit away from a canonical string",
         assumptions: vec!["v1 typed asymmetric keys may be given as PEM inside the base64 body and canonicalise to DER (excluded from the re-serialise-identically clause only)"],
         subs,
     }
